@@ -126,6 +126,16 @@ theorem translatorDecrypt_fst (c : CryptoOps) (cfg : PoisonCfg) (kv : KeyView) (
   unfold Envelope.translatorDecrypt
   cases decryptWithHandler c kv k d <;> rfl
 
+theorem translatorDecryptScan_of_ok (c : CryptoOps) (cfg : PoisonCfg) (kv : KeyView) (k : Kind) (d sc m : Bytes)
+    (h : decryptWithHandler c kv k d = .ok m) : Envelope.translatorDecryptScan c cfg kv k d sc = (.ok m, 0) := by
+  unfold Envelope.translatorDecryptScan
+  rw [h]
+
+theorem translatorDecryptScan_fst (c : CryptoOps) (cfg : PoisonCfg) (kv : KeyView) (k : Kind) (d sc : Bytes) :
+    (Envelope.translatorDecryptScan c cfg kv k d sc).1 = decryptWithHandler c kv k d := by
+  unfold Envelope.translatorDecryptScan
+  cases decryptWithHandler c kv k d <;> rfl
+
 /-- **the searchable decrypts are `Searchable.translatorDecrypt`** (the core C09 reasons about) as far as
 the client's answer goes; the poison scan only adds alarms -/
 theorem decryptSearchableWith_fst (k : Kind) (c : CryptoOps) (st : Store) (id data : Bytes) (hash : Option Bytes) :
@@ -139,15 +149,16 @@ theorem decryptSearchableWith_fst (k : Kind) (c : CryptoOps) (st : Store) (id da
   | some hc =>
     obtain ⟨h, container⟩ := hc
     simp only
-    have hf := translatorDecrypt_fst c st.poison (st.keys id) k container
+    generalize siteBuffer (siteHolds (searchableOp k) "decrypt-failed") data (dataToDecrypt data hash) container = sc
+    have hf := translatorDecryptScan_fst c st.poison (st.keys id) k container sc
     cases hd : decryptWithHandler c (st.keys id) k container with
     | ok plain =>
-      rw [translatorDecrypt_of_ok c st.poison (st.keys id) k container plain hd]
+      rw [translatorDecryptScan_of_ok c st.poison (st.keys id) k container sc plain hd]
       simp only
       by_cases he : isEqual c (st.hmac id) h plain = true <;> simp [he]
     | err =>
       rw [hd] at hf
-      cases ht : Envelope.translatorDecrypt c st.poison (st.keys id) k container with
+      cases ht : Envelope.translatorDecryptScan c st.poison (st.keys id) k container sc with
       | mk o a =>
         rw [ht] at hf
         simp only at hf
@@ -155,7 +166,7 @@ theorem decryptSearchableWith_fst (k : Kind) (c : CryptoOps) (st : Store) (id da
         rfl
     | panic =>
       rw [hd] at hf
-      cases ht : Envelope.translatorDecrypt c st.poison (st.keys id) k container with
+      cases ht : Envelope.translatorDecryptScan c st.poison (st.keys id) k container sc with
       | mk o a =>
         rw [ht] at hf
         simp only at hf
@@ -170,7 +181,7 @@ theorem decryptSearchableWith_ok (k : Kind) (c : CryptoOps) (st : Store) (id dat
     decryptSearchableWith k c st data hash (some id) none = (.ok m, 0) := by
   unfold decryptSearchableWith
   rw [checkRequest_ok false id (Or.inl rfl)]
-  simp only [hx, translatorDecrypt_of_ok c st.poison (st.keys id) k container m hd, he, if_true]
+  simp only [hx, translatorDecryptScan_of_ok c st.poison (st.keys id) k container _ m hd, he, if_true]
 
 /-! ### serialized values -/
 
